@@ -244,7 +244,12 @@ func (p *sparser) expr0() SExpr { // <==>
 	l := p.exprImp()
 	for p.isOp("<==>") {
 		p.next()
-		r := p.exprImp()
+		var r SExpr
+		if p.isId("forall") || p.isId("exists") || p.isId("let") {
+			r = p.expr()
+		} else {
+			r = p.exprImp()
+		}
 		l = &SBinary{"<==>", l, r}
 	}
 	return l
@@ -281,7 +286,12 @@ func (p *sparser) exprOr() SExpr {
 	l := p.exprAnd()
 	for p.isOp("||") {
 		p.next()
-		r := p.exprAnd()
+		var r SExpr
+		if p.isId("forall") || p.isId("exists") || p.isId("let") {
+			r = p.expr()
+		} else {
+			r = p.exprAnd()
+		}
 		l = &SBinary{"||", l, r}
 	}
 	return l
